@@ -1,7 +1,11 @@
 package main
 
 import (
+	"time"
+
 	"encoding/json"
+	"github.com/styrainc/regal/internal/lsp/clients"
+	"github.com/styrainc/regal/internal/lsp/uri"
 	"os"
 	"path/filepath"
 	"sort"
@@ -136,5 +140,40 @@ func init() {
 		}
 		out["files"] = res
 		return out, nil
+	})
+	// the same question asked of the language server: a real server is started on the tree (it loads the config and
+	// the manifests during initialize), then the version it would parse each document with is read for the URI the
+	// given client flavour sends for that path (uri.FromPath percent-encodes directory names)
+	register("c20.lsp", func(req map[string]any) (any, error) {
+		base, err := os.MkdirTemp("", "verif-c20l-")
+		if err != nil {
+			return nil, err
+		}
+		defer os.RemoveAll(base)
+		base, _ = filepath.EvalSymlinks(base)
+		root := filepath.Join(base, "w")
+		files := toStrMap(req["files"])
+		if cfg, ok := req["config"]; ok && cfg != nil {
+			raw, _ := json.Marshal(cfg)
+			files[".regal/config.yaml"] = string(raw) // JSON is YAML
+		}
+		if err := writeTree(root, files); err != nil {
+			return nil, err
+		}
+		s, err := startLSP(root, str(req, "client"))
+		if err != nil {
+			return map[string]any{"error": err.Error()}, nil
+		}
+		defer s.cancel()
+		s.waitIdle(600*time.Millisecond, 20*time.Second)
+		res := map[string]string{}
+		for rel := range files {
+			if !strings.HasSuffix(rel, ".rego") {
+				continue
+			}
+			u := uri.FromPath(clients.Identifier(s.ls.VerifClient()), filepath.Join(root, rel))
+			res[rel] = s.ls.VerifRegoVersionForURI(u)
+		}
+		return map[string]any{"files": res}, nil
 	})
 }
